@@ -165,6 +165,8 @@ def to_spec(items, prefix=""):
             spec.append([p, "f", gz_text(it["content"])])
         elif k == "exec":
             spec.append([p, "f", SCRIPT, 0o755])
+        elif k == "links":
+            spec.append([p, "f", it["text"]])
     return spec
 
 
